@@ -299,7 +299,14 @@ func c30one(r *vh.Run, sh c30shape, peers []c30peer) {
 			for _, o := range p {
 				cs.Peers = append(cs.Peers, peers[o])
 			}
-			r.Violationf("order-dependent:"+c30stakeClass(peers, int(sh.K)), cs, "%s stakes(by index)=%v: input order %v gives %s, index order gives %s", shape, c30stakes(peers), p, got, want)
+			cls := c30stakeClass(peers, int(sh.K)) // "cut,ties-in-topK=n,zero"
+			key := "order-dependent:" + strings.SplitN(cls, ",", 2)[0]
+			if strings.Contains(cls, "ties-in-topK=0") && !strings.HasPrefix(cls, "cut-tied") {
+				key += ",no-ties"
+			} else {
+				key += ",ties"
+			}
+			r.Violationf(key, cs, "%s stakes(by index)=%v: input order %v gives %s, index order gives %s", shape, c30stakes(peers), p, got, want)
 		}
 		return true
 	})
@@ -341,7 +348,8 @@ func TestVerif_C30(t *testing.T) {
 			{4, 3, 6, 1, big, true},
 			{5, 4, 8, 1, mid, true},
 			{7, 4, 8, 1, small, true},
-			{7, 7, 14, 2, small, true},
+			{7, 7, 14, 2, []uint64{0, 10000}, true},
+			{7, 7, 14, 2, mid, false},
 			{7, 7, 112, 2, big, false},
 			{8, 7, 112, 2, mid, false},
 			{8, 4, 8, 1, mid, false},
